@@ -68,6 +68,10 @@ func c15Rewrite(rule, path string) string {
 		if strings.HasPrefix(path, "/api/") {
 			return "/" + strings.TrimPrefix(path, "/api/")
 		}
+	case "/img/*:/static/$1_thumb":
+		if strings.HasPrefix(path, "/img/") {
+			return "/static/" + strings.TrimPrefix(path, "/img/") + "_thumb"
+		}
 	case "/rest/*/user/*:/$1/$2":
 		if strings.HasPrefix(path, "/rest/") {
 			rest := strings.TrimPrefix(path, "/rest/")
@@ -105,7 +109,7 @@ func init() {
 			{"ims-miss", http.Header{"If-Modified-Since": {"Thu, 01 Dec 1990 16:00:00 GMT"}}, 200},
 			{"range", http.Header{"Range": {"bytes=0-3"}}, 0},
 		}
-		paths := []string{"/api/users/1", "/rest/v1/user/7", "/plain"}
+		paths := []string{"/api/users/1", "/rest/v1/user/7", "/plain", "/img/cat"}
 		st.Bounds = fmt.Sprintf("5 methods x 2 bodies x %d queries x %d locations x 2 upstream encodings x %d conditionals x 3 key states x %d paths", len(queries), len(locs), len(conds), len(paths))
 		var idx int64
 		for li, lc := range locs {
@@ -126,11 +130,11 @@ func init() {
 						}
 						for _, q := range queries {
 							for pi, path := range paths {
-								if !c.Thorough() && m != "GET" && (pi != li%3 || q == "a=") {
+								if !c.Thorough() && m != "GET" && (pi != li%4 || q == "a=") {
 									continue
 								}
 								for _, cd := range conds {
-									for _, state := range []string{"cold", "hit", "hfp"} {
+									for _, state := range []string{"cold", "hit", "hfp", "hfp-now-cacheable"} {
 										if (m != "GET" && m != "HEAD") && state != "cold" {
 											continue
 										}
@@ -154,7 +158,7 @@ func init() {
 										case "hit":
 											e.Respond = c15Origin(true)
 											e.Do(env.Req{Method: m, URI: uri, Rid: "pro"})
-										case "hfp":
+										case "hfp", "hfp-now-cacheable":
 											e.Respond = c15Origin(false)
 											e.Do(env.Req{Method: m, URI: uri, Rid: "pro"})
 										}
@@ -264,7 +268,7 @@ func init() {
 												viol("added-response-header-missing", fmt.Sprintf("%s: %q", p[0], r.Header.Values(p[0])))
 											}
 										}
-										if isGH && cd.want != 0 && cacheable {
+										if isGH && cd.want != 0 && cacheable && state != "hfp-now-cacheable" {
 											if r.Status != cd.want {
 												viol(fmt.Sprintf("conditional-client-got-%d-expected-%d", r.Status, cd.want), fmt.Sprintf("label %s", r.XStatus))
 											}
